@@ -112,7 +112,7 @@ def main(tier: str, seed: int, replay: str | None = None) -> int:
         cases = gen_cases(rng, 150, 300, 3) + exhaustive_cases(2)
     blocks = []
     for ci, (h, items) in enumerate(cases):
-        h.build()
+        h.build_staged(random.Random(7919 * ci + 13))
         blocks.append((f"Definition H_{ci} := {h.coq()}.\n"
             f"Eval vm_compute in map (aobs H_{ci}) " + C.coq_list(items,
                 lambda p: f"({C.ty_coq(p[0])}, {C.ty_coq(p[1])})") + ".\n", 1))
